@@ -1459,6 +1459,13 @@ func (sc *serverConn) closeStream(st *stream, err error) {
 	}
 	delete(sc.streams, st.id)
 	if p := st.body; p != nil {
+		// Stop the handler from reading what is still buffered, then return
+		// these unread bytes worth of conn-level flow control: nobody will
+		// read them any more and noteBodyRead will never account for them,
+		// so without this the client's connection window shrinks for good
+		// with every request whose body is not drained (golang.org/issue/16481).
+		p.BreakWithError(err)
+		sc.sendWindowUpdate(nil, p.Len())
 		p.CloseWithError(err)
 		if st.defaultStreamWindow() {
 			p.Release(&fixBufferPool)
